@@ -219,6 +219,32 @@ def contract_edits(rng, ct):
             pay[0]["ty"] = P("Option", pay[0]["ty"])
         ed("reply-payload-type-mismatch", payload_type)
 
+        def second_redundant_raw(x):
+            # the *second-declared* method of a merged pair is validated like the first: same payload count and types as its
+            # partner, but one of its (two or more) payload parameters carries the raw marker
+            for e in reply_entries_of(x):
+                if len(e["order"]) < 2:
+                    continue
+                m = e["order"][1]
+                pay = m["args"][(0 if m["reply_role"] == "none" else 1):]
+                if len(pay) >= 2 and not any(a.get("payload_raw") for a in pay):
+                    pay[rng.randrange(len(pay))]["payload_raw"] = True
+                    return
+            return False
+        ed("reply-raw-marker-among-payload-second-method", second_redundant_raw)
+
+        def second_data_on_error(x):
+            # ... and so are its data markers: the error method declared second carries #[sv::data]
+            for e in reply_entries_of(x):
+                if len(e["order"]) < 2:
+                    continue
+                m = e["order"][1]
+                if m["msg"]["reply_on"] in ("error", "always") and m["args"]:
+                    m["args"][0]["data"] = {"opt": True}
+                    return
+            return False
+        ed("reply-data-outside-success-second-method", second_data_on_error)
+
         def data_not_first(x):
             for m in x["methods"]:
                 if m["msg"]["kind"] == "reply" and m.get("reply_role") not in (None, "none", "error", "result") and len(m["args"]) >= 2 and not m["args"][1].get("payload_raw"):
